@@ -80,6 +80,7 @@ def build_repo(args):
         raise splice.ExtractError('the repository does not compile: ' + p.stderr[-800:])
     arts = {}
     feats = {}
+    cands = {}
     for line in p.stdout.split('\n'):
         if not line.startswith('{'):
             continue
@@ -90,8 +91,27 @@ def build_repo(args):
         if d.get('reason') == 'compiler-artifact':
             for fn in d.get('filenames', []):
                 if fn.endswith('.rlib'):
-                    arts[d['target']['name'].replace('-', '_')] = fn
-                    feats[d['target']['name'].replace('-', '_')] = sorted(d.get('features', []))
+                    nm = d['target']['name'].replace('-', '_')
+                    ver = (re.search(r'[@#:]([0-9]+\.[0-9]+\.[0-9]+[^ )]*)', d.get('package_id', '')) or [None, ''])[1]
+                    cands.setdefault(nm, []).append((ver, fn, sorted(d.get('features', []))))
+    # several versions of one crate can be in the graph (e.g. indexmap 1.x under salsa, 2.x under ide): link the one /repo's own
+    # crates declare, so that the choice does not depend on the order cargo happens to report them in
+    declared = {}
+    try:
+        for m in re.finditer(r'^([A-Za-z0-9_-]+)\s*=\s*(?:"([^"]+)"|\{[^}]*version\s*=\s*"([^"]+)")', open('/repo/Cargo.toml').read(), re.M):
+            declared[m.group(1).replace('-', '_')] = (m.group(2) or m.group(3) or '').lstrip('^=~ ')
+    except OSError:
+        pass
+    for nm, lst in cands.items():
+        pick = lst[-1]
+        want = declared.get(nm)
+        if want and len(set(v for (v, _, _) in lst)) > 1:
+            key = want.split('.')[0] if not want.startswith('0.') else '.'.join(want.split('.')[:2])
+            match = [c for c in lst if c[0] == want or c[0].startswith(key + '.')]
+            if match:
+                pick = match[-1]
+        arts[nm] = pick[1]
+        feats[nm] = pick[2]
     return (os.path.join(REPO_TARGET, 'debug', 'deps'), arts, feats)
 
 
